@@ -112,9 +112,40 @@ MISSED = {
     "C20-7": "helpers were called on fresh objects only; added long-lived exporters built outside / in the previous context",
     "C20-8": "Op.str was observed on Python floats only; added numpy float32 / float16 scalars and arrays",
     "C20-9": "Benchmark.run was not among the comparison helpers; added",
+    # ---- fourth round (ids 10..12) ----
+    "C01-11": "the quick tier ran chained blocks under three activation methods only; now five (Threshold and First added)",
+    "C01-12": "operators were always given to the constructors; added engines set up through Engine.configure (space H, all conjunction x implication pairs)",
+    "C02-10": "the batch size never equalled a Centroid resolution; added resolutions 2, 3, 4",
+    "C03-11": "Discrete pairs were always given in order; added reversed pairs followed by sort()",
+    "C03-12": "terms were always fresh; added a term of another height re-configured without a height",
+    "C04-12": "the debug switch was never on; added (and numpy's error state must stay untouched)",
+    "C05-10": "no one-element arrays; added shapes (1,), (1,1), (1,1,1)",
+    "C05-11": "results were never edited before the next call; added (a result must be a fresh array)",
+    "C06-10": "weights came from rule text only and were never 0; added the Rule constructor path and weight 0",
+    "C06-11": "the output variable in antecedents had a bounded aggregation; added one without an operator whose term sums to 1.35",
+    "C07-10": "no copied engine; added a copy whose rule block is activated (the original's outputs must stay empty)",
+    "C07-11": "operators were always given to the RuleBlock constructor; every other shard now installs them through Engine.configure",
+    "C07-12": "caught by C06 at once (round 3); C07 itself only used fresh rule objects; a long-lived re-parsed rule was added",
+    "C08-10": "no rule whose load failed after its first conclusion; added the `failed-load` status",
+    "C08-12": "no NaN degree; added to the degree alphabet for blocks of up to 3 (thorough 4) rules",
+    "C10-11": "no monotonic term with height below 1/2; added Sigmoid / SShape / Arc of height 1/4",
+    "C12-10": "no default of exactly 0.0; added",
+    "C12-12": "defuzzifier results were always contiguous arrays; added a column view and a reversed view (which exposed the fill-forward order defect)",
+    "C13-10": "inputs were set on the variables and flags restored at once; added Engine.input_values, a persistent input flag flip, and the fresh engine now gets the values the history GAVE",
+    "C14-10": "no rule weight of exactly 0; added",
+    "C14-11": "exporter and importer were used with the default separator; added pairs configured with other separators",
+    "C15-11": "exporters were created per use and encapsulated code was run after the correct import statement; long-lived exporters across aliases, encapsulated code run on its own",
+    "C15-12": "every engine went through Engine(...); added an engine assembled step by step whose Function terms carry their own variables",
+    "C16-11": "accepted FLL documents were exported but never processed, and a line was only truncated together with the rest of the document; both added",
+    "C17-10": "comparison functions were evaluated at a few well-separated points; added all pairs of a 21-point near-tie lattice",
+    "C18-12": "a settings leak (context not restored after an exception): a C20 mechanism - caught by C20, not by C18",
+    "C19-11": "no rule whose load failed part-way in a ready engine; added under every activation method",
+    "C20-10": "scalar() was observed on fresh Python values only; added arrays built at import time / during the previous observation",
+    "C20-11": "all temporary factory managers had the same operators; two of them now know `//` and Function.format_infix is observed",
+    "C20-12": "term printing (height omitted when close to 1) was not among the helpers; added",
 }
 # changes that belong to another property's mechanism: the check that catches them
-EXTRA = {"C05-5": ["C20"]}
+EXTRA = {"C05-5": ["C20"], "C18-12": ["C20"]}
 results = []
 for d in sorted(os.listdir(SRC)):
     m = re.match(r"out_(C\d+)$", d)
